@@ -305,6 +305,33 @@ impl PublicBatchProver {
     }
 }
 
+/// Simulator access to the committed witness (read-only), re-arming of a built
+/// prover, and the crate-private preflight.
+#[cfg(quantus_network_qp_zk_circuits_verif)]
+impl PublicBatchProver {
+    pub fn verif_targets(&self) -> Option<PublicBatchCircuitTargets> {
+        self.targets.clone()
+    }
+
+    pub fn verif_partial_witness(&self) -> &PartialWitness<F> {
+        &self.partial_witness
+    }
+
+    pub fn verif_rearm(&mut self, targets: PublicBatchCircuitTargets) {
+        self.partial_witness = PartialWitness::new();
+        self.targets = Some(targets);
+    }
+}
+
+#[cfg(quantus_network_qp_zk_circuits_verif)]
+pub fn verif_preflight(
+    proofs: &[ProofWithPublicInputs<F, C, D>],
+    num_private_batch_proofs: usize,
+    private_batch_verifier: &VerifierCircuitData<F, C, D>,
+) -> Result<()> {
+    preflight_private_batch_proofs(proofs, num_private_batch_proofs, private_batch_verifier)
+}
+
 /// Admission checks for a caller-supplied private-batch proof vector: count
 /// bounds (non-empty, at most `num_private_batch_proofs`), public-input
 /// shape, cryptographic verification against the pinned private-batch
